@@ -177,6 +177,47 @@ fn run(ctx: &Ctx) -> Part {
     let mut acc = acc;
     acc.count("configurations_small", n_cfg as u64);
 
+    // ---- all depth-3 programs on the smallest displays (quick too): draw / other call / draw again ----
+    // (cached-window or cached-bus-state mistakes need an A, B, A' history; the chained program
+    // above only contains one particular order)
+    {
+        let mut jobs3 = Vec::new();
+        for &(fw, fh, win) in &[(2u16, 2u16, (2u16, 2u16, 0u16, 0u16)), (3, 2, (2, 2, 1, 0)), (2, 3, (2, 1, 0, 1))] {
+            for tr in [Transport::RecSerial, Transport::Par8, Transport::Spi { len: 3 }] {
+                for o in [0u8, 3, 5] {
+                    if tr.is_real() && o != 3 {
+                        continue;
+                    }
+                    jobs3.push(Cfg::tiny(fw, fh, false, tr, win, o));
+                }
+            }
+        }
+        let work: Vec<(Cfg, usize)> = jobs3
+            .iter()
+            .flat_map(|c| {
+                let (lw, lh) = c.geo().lsize();
+                (0..alphabet(lw, lh, false).len()).map(move |i| (*c, i))
+            })
+            .collect();
+        let a3 = work
+            .par_iter()
+            .fold(Acc::new, |mut acc, (cfg, i)| {
+                let mut states = HashSet::new();
+                let (lw, lh) = cfg.geo().lsize();
+                let ops = alphabet(lw, lh, false);
+                for b in &ops {
+                    for c in &ops {
+                        check_one(ctx, &mut acc, cfg, &[ops[*i].clone(), b.clone(), c.clone()], &mut states);
+                    }
+                }
+                acc.count("depth3_programs", (ops.len() * ops.len()) as u64);
+                acc.states += states.len() as u64;
+                acc
+            })
+            .reduce(Acc::new, Acc::merge);
+        acc = acc.merge(a3);
+    }
+
     // ---- depth-2 programs (thorough) ------------------------------------------------------------
     if !quick {
         let mut jobs2 = Vec::new();
@@ -310,10 +351,11 @@ fn run(ctx: &Ctx) -> Part {
         "transports": "RecSerial, RecPar16, Spi(N), Spi(N+1), Spi(2N+1), [Spi(64)], Par8, Par16 (Rgb666 on 8-bit only)",
         "alphabet": "set_pixel@every position; set_pixels/fill_solid/fill_contiguous/draw_iter-raster on every sub-rectangle; clear; draw_iter singles and ordered pairs",
         "builtin_configs": nb, "extreme_configs": ng, "small_configs": n_cfg,
-        "depth2": !quick,
+        "depth2": !quick, "depth3": "all programs of length 3 on 2x2 / 2x2@(1,0) of 3x2 / 2x1@(0,1) of 2x3 displays",
     });
     let mut part = Part::new(ctx, acc, bounds, true, t0.elapsed().as_secs_f64());
     part.require("chained_programs", 1);
+    part.require("depth3_programs", 1000);
     part.require("configurations_builtin", 14);
     part.require("configurations_extreme", 1);
     part
